@@ -122,6 +122,31 @@ func (r *slistRunner) Do(op []string) string {
 		return b2s(ok) + " " + eachS(l)
 	case "each":
 		return eachS(l)
+	case "eachobs":
+		// Each with a callback that itself observes the list: Find of the first element at every visit
+		first, okAll := -1, true
+		l.Each(func(v int) {
+			if first == -1 {
+				first = v
+			}
+			if _, ok := l.Find(first); !ok {
+				okAll = false
+			}
+		})
+		return b2s(okAll) + " " + eachS(l)
+	case "eachpanic":
+		// Each with a callback that panics at the k-th visit (the caller recovers): the list must be what it was
+		k, visits := atoi(op[1]), 0
+		func() {
+			defer func() { recover() }()
+			l.Each(func(int) {
+				visits++
+				if visits == k {
+					panic("callback failed")
+				}
+			})
+		}()
+		return eachS(l)
 	case "hold": // keep the handle Find gives for a value; it is used by later deleteh / insertafterh lines
 		n, ok := l.Find(atoi(op[2]))
 		if r.slots == nil {
@@ -205,6 +230,29 @@ func (r *dlistRunner) Do(op []string) string {
 		return eachD(l)
 	case "dump":
 		return dlistDump(l)
+	case "eachobs":
+		first, okAll := -1, true
+		l.Each(func(v int) {
+			if first == -1 {
+				first = v
+			}
+			if _, ok := l.Find(first); !ok || l.First() != first {
+				okAll = false
+			}
+		})
+		return b2s(okAll) + " " + eachD(l)
+	case "eachpanic":
+		k, visits := atoi(op[1]), 0
+		func() {
+			defer func() { recover() }()
+			l.Each(func(int) {
+				visits++
+				if visits == k {
+					panic("callback failed")
+				}
+			})
+		}()
+		return eachD(l)
 	case "hold":
 		n, ok := l.Find(atoi(op[2]))
 		if r.slots == nil {
@@ -426,6 +474,24 @@ func genC19(g *Gen) {
 			}
 		}
 		rec()
+	}
+	// nil handles (what Find returns for an absent value) and Each callbacks that observe the list or panic
+	for _, kind := range []string{"slist", "dlist"} {
+		for _, pre := range [][]string{{}, {"append 2"}, {"append 2", "append 3", "unshift 4"}} {
+			if !g.Mine() {
+				continue
+			}
+			ops := append([]string{}, pre...)
+			ops = append(ops, "hold 0 77", "insertafterh 0 50", "each")
+			if kind == "dlist" {
+				ops = append(ops, "insertbeforeh 0 51", "each", "dump")
+			}
+			ops = append(ops, "deleteh 0", "each", "append 8", "deleteh 0", "each")
+			g.Emit(kind, []string{"1"}, ops)
+			ops = append([]string{}, pre...)
+			ops = append(ops, "eachobs", "eachpanic 1", "each", "eachpanic 2", "each", "eachpanic 3", "eachobs", "append 9", "eachpanic 2", "each", "find 9")
+			g.Emit(kind, []string{"1"}, ops)
+		}
 	}
 	// seeded random long edit sequences
 	n := 400
